@@ -133,4 +133,81 @@ theorem parenthese_conditions_canon (n : Node) (x : Expect) (hx : x ∈ Canon.pa
 
 example : Canon.parentheseConditions (.stmt Ex.whileParen) ≠ [] ∧ ParentheseConditions.lint (Ex.deepCtx.plug Ex.whileParen) ≠ [] := by decide
 
+/-! ### duplicate_keys -/
+
+theorem duplicate_keys_sound (b : Block) (g : Diag) (h : g ∈ DuplicateKeys.lint b)
+    (hplain : (nodesB b).all plainKeys = true) : ∃ n ∈ nodesB b, Doc.duplicateKeys n g = true :=
+  sound_lift DuplicateKeys.hook_sound h hplain
+
+example : (nodesB (Ex.prog Ex.dupCanon)).all plainKeys = true ∧ DuplicateKeys.lint (Ex.prog Ex.dupCanon) ≠ [] := by decide
+
+/-- `{ ["\n"] = 1, [ [[\n]] ] = 2 }` (a line feed; a backslash and an `n`) is reported as a duplicate:
+the raw text between the delimiters is compared whatever the quote kind -/
+theorem duplicate_keys_defect :
+    ∃ g ∈ DuplicateKeys.lint (Ex.prog Ex.dupDefect), ∀ n ∈ nodesB (Ex.prog Ex.dupDefect), Doc.duplicateKeys n g = false := by
+  decide
+
+/- Full statement (not proved; it needs the converse invariant of `DuplicateKeys.fields_sound`: every
+   earlier canonical key is in `declared`):
+     theorem duplicate_keys_canon (n : Node) (x : Expect) (hx : x ∈ Canon.duplicateKeys n) (s : Stmt)
+       (hn : n ∈ nodesS s) (ctx : BCtx) : ∃ g ∈ DuplicateKeys.lint (ctx.plug s), x.matches g = true
+   Proved instead: the documented example is reported in every context; the general statement is
+   checked on every generated table by the correspondence run (`missed-canonical` clauses). -/
+theorem duplicate_keys_canon_partial (ctx : BCtx) :
+    ∃ g ∈ DuplicateKeys.lint (ctx.plug Ex.dupCanon), g.primary = ⟨7, 11⟩ ∧ g.secondary = [⟨3, 5⟩] := by
+  refine ⟨{ code := "duplicate_keys", primary := ⟨7, 11⟩, msg := DuplicateKeys.message "a", secondary := [⟨3, 5⟩] }, ?_, rfl, rfl⟩
+  refine runLint_plug _ ctx _ _ ⟨.table ⟨2, 12⟩ (match Ex.dupCanonTbl with | .tbl _ fs => fs | _ => .nil), ?_, by decide⟩
+  simp [Ex.dupCanon, Ex.assignTo, Ex.dupCanonTbl, nodesS, nodesEL, nodesE]
+
+example : Canon.duplicateKeys (.table ⟨2, 12⟩ (match Ex.dupCanonTbl with | .tbl _ fs => fs | _ => .nil)) = [{ primary := ⟨7, 11⟩ }] := by decide
+
+/-! ### bad_string_escape -/
+
+/-- `"\3a0"` (the escape `\3` followed by `a0`) is reported "decimal escape is too high": the regular
+expression swallows hexadecimal digits and the check adds the hundreds to the third character -/
+theorem bad_string_escape_defect_hex_digits :
+    ∃ g ∈ BadStringEscape.lint false (Ex.prog (Ex.strAssign "\\3a0")),
+      ∀ n ∈ nodesB (Ex.prog (Ex.strAssign "\\3a0")), Doc.badStringEscape false n g = false := by
+  decide
+
+/-- (Roblox) `"\x414"` is reported malformed although `\x41` has its two digits -/
+theorem bad_string_escape_defect_x_digits :
+    ∃ g ∈ BadStringEscape.lint true (Ex.prog (Ex.strAssign "\\x414")),
+      ∀ n ∈ nodesB (Ex.prog (Ex.strAssign "\\x414")), Doc.badStringEscape true n g = false := by
+  decide
+
+/-- a backslash before CR LF (a line continuation in a CRLF file) is reported as a non-existent escape -/
+theorem bad_string_escape_defect_crlf :
+    ∃ g ∈ BadStringEscape.lint false (Ex.prog (Ex.strAssign "a\\\r\nb")),
+      ∀ n ∈ nodesB (Ex.prog (Ex.strAssign "a\\\r\nb")), Doc.badStringEscape false n g = false := by
+  decide
+
+/-- `"\256"` is not reported (by-value miss: the tens digit is never read) -/
+theorem bad_string_escape_miss_256 :
+    BadStringEscape.lint false (Ex.prog (Ex.strAssign "\\256")) = [] ∧
+      ByValue.badStringEscape false (.expr (.str ⟨2, "\"\\256\""⟩ .double "\\256")) ≠ [] := by
+  decide
+
+/- Full statements (not proved: they need "the regular expression's matches start exactly at the
+   backslashes where a Lua lexer starts an escape", an induction over both scanners):
+     theorem bad_string_escape_sound (roblox) (b) (g) (h : g ∈ BadStringEscape.lint roblox b)
+       (hplain : no decimal / `\x` escape of b is followed by a hexadecimal digit, no CR after a backslash) :
+       ∃ n ∈ nodesB b, Doc.badStringEscape roblox n g = true
+     theorem bad_string_escape_canon (roblox) (n) (x) (hx : x ∈ Canon.badStringEscape roblox n) (s) (hn : n ∈ nodesS s) (ctx) :
+       ∃ g ∈ BadStringEscape.lint roblox (ctx.plug s), x.matches g = true
+   Proved instead: the three documented examples are reported in every context; both statements are
+   evaluated on every generated string by the correspondence run. -/
+theorem bad_string_escape_canon_partial (ctx : BCtx) :
+    (∃ g ∈ BadStringEscape.lint false (ctx.plug (Ex.strAssign "\\m")), g.sub = some (1, 3) ∧ g.msg = BadStringEscape.msgInvalid) ∧
+    (∃ g ∈ BadStringEscape.lint false (ctx.plug (Ex.strAssign "don\\'t")), g.sub = some (4, 6) ∧ g.msg = BadStringEscape.msgSingleInDouble) ∧
+    (∃ g ∈ BadStringEscape.lint true (ctx.plug (Ex.strAssign "\\u{110000}")), g.sub = some (1, 11) ∧ g.msg = BadStringEscape.msgCodepoint) := by
+  refine ⟨?_, ?_, ?_⟩
+  · refine ⟨{ code := "bad_string_escape", primary := ⟨2, 2⟩, msg := BadStringEscape.msgInvalid, sub := some (1, 3) }, ?_, rfl, rfl⟩
+    exact runLint_plug _ ctx _ _ ⟨.expr (.str ⟨2, "\"\\m\""⟩ .double "\\m"), by simp [Ex.strAssign, Ex.assignTo, nodesS, nodesEL, nodesE], by decide⟩
+  · refine ⟨{ code := "bad_string_escape", primary := ⟨2, 2⟩, msg := BadStringEscape.msgSingleInDouble, sub := some (4, 6) }, ?_, rfl, rfl⟩
+    exact runLint_plug _ ctx _ _ ⟨.expr (.str ⟨2, "\"don\\'t\""⟩ .double "don\\'t"), by simp [Ex.strAssign, Ex.assignTo, nodesS, nodesEL, nodesE], by decide⟩
+  · refine ⟨{ code := "bad_string_escape", primary := ⟨2, 2⟩, msg := BadStringEscape.msgCodepoint, sub := some (1, 11) }, ?_, rfl, rfl⟩
+    exact runLint_plug _ ctx _ _ ⟨.expr (.str ⟨2, "\"\\u{110000}\""⟩ .double "\\u{110000}"), by simp [Ex.strAssign, Ex.assignTo, nodesS, nodesEL, nodesE], by decide⟩
+
+
 end Selene.Props.C04A
